@@ -1,9 +1,9 @@
 package main
 
-import "fmt"
+
 
 func selftest(seed int64) int {
-	fmt.Println("selftest: not built yet")
+	outln("selftest: not built yet")
 	return exitOK
 }
 
